@@ -7,6 +7,7 @@ package c12
 import (
 	"errors"
 	"fmt"
+	"io"
 	"os"
 	"path/filepath"
 	"strings"
@@ -110,12 +111,97 @@ func TestPropPackWriter(t *testing.T) {
 }
 
 // ---------------------------------------------------------------------------
+// (a') Pack while the source directory loses an entry it has already listed
+
+type VanishCase struct {
+	Tree fsx.Tree `json:"tree"`
+	Opts pk.Opts  `json:"opts"`
+}
+
+// vanishWriter removes victim when the first byte of the slug arrives.
+type vanishWriter struct {
+	victim string
+	fired  bool
+	n      int
+}
+
+func (w *vanishWriter) Write(p []byte) (int, error) {
+	if !w.fired {
+		w.fired = true
+		os.RemoveAll(w.victim)
+	}
+	w.n += len(p)
+	return len(p), nil
+}
+
+var subVanish = ev.Register("sourcevanish", func(c VanishCase) error {
+	r, cleanup := fsx.Scratch("c12v-")
+	defer cleanup()
+	src := filepath.Join(r, "src")
+	vars := map[string]string{"R": r}
+	if err := fsx.Materialise(src, c.Tree, vars); err != nil {
+		return fmt.Errorf("harness: materialise: %v", err)
+	}
+	p, err := c.Opts.Packer(vars)
+	if err != nil {
+		return fmt.Errorf("harness: %v", err)
+	}
+	meta, err := p.Pack(src, io.Discard)
+	if err != nil || len(meta.Files) == 0 {
+		ev.Label("clean-pack-fails-or-empty")
+		return nil
+	}
+	names, _ := os.ReadDir(src)
+	if len(names) < 2 {
+		ev.Label("single-root-entry")
+		return nil
+	}
+	victim := names[len(names)-1].Name() // ReadDir sorts by name, like the walk
+	first := strings.TrimSuffix(meta.Files[0], "/")
+	if first == victim || strings.HasPrefix(first, victim+"/") {
+		ev.Label("victim-is-first-entry")
+		return nil
+	}
+	// The walk has listed the root directory before anything is written; the
+	// victim is gone by the time the walk gets to it.
+	os.Chmod(src, 0755)
+	w := &vanishWriter{victim: filepath.Join(src, victim)}
+	ev.NonTrivial(c, "listed-entry-vanishes-during-pack")
+	var perr error
+	var panicked any
+	func() {
+		defer func() { panicked = recover() }()
+		_, perr = p.Pack(src, w)
+	}()
+	if panicked != nil {
+		return fmt.Errorf("Pack panicked: %v", panicked)
+	}
+	if _, serr := os.Lstat(w.victim); serr == nil {
+		ev.Label("victim-not-removable")
+		return nil
+	}
+	if perr == nil {
+		return fmt.Errorf("Pack returned nil although %q, which the walk had listed, could no longer be read (it was removed while the first entry was written): the slug silently lacks it", victim)
+	}
+	return nil
+})
+
+func TestPropSourceVanish(t *testing.T) {
+	ev.Check(t, subVanish, func(t *rapid.T) VanishCase {
+		cfg := tgen.Config{MaxNodes: 8, Links: true, IgnoreNames: true}
+		c := VanishCase{Tree: tgen.Gen(t, cfg)}
+		c.Opts.Ignore = rapid.Bool().Draw(t, "ignore")
+		return c
+	})
+}
+
+// ---------------------------------------------------------------------------
 // (b) Unpack with a truncated / failing reader
 
 type UnpackCase struct {
 	Entries []tarx.Entry `json:"entries"`
 	Only    int          `json:"only"`
-	Chunk   int          `json:"chunk"` // reader hands out at most this many bytes per Read (0 = unlimited)
+	Chunk   int          `json:"chunk"`           // reader hands out at most this many bytes per Read (0 = unlimited)
 	Split   int          `json:"split,omitempty"` // the slug is a gzip stream of two members, cut in front of this entry
 }
 
@@ -262,6 +348,8 @@ func TestPropUnpackReader(t *testing.T) {
 type PolicyCase struct {
 	Before []tarx.Entry `json:"before"`
 	Bad    tarx.Entry   `json:"bad"`
+	// further offenders behind the first one: the rejection stays an illegal-slug error
+	After []tarx.Entry `json:"after,omitempty"`
 }
 
 var subPolicy = ev.Register("policy", func(c PolicyCase) error {
@@ -270,12 +358,13 @@ var subPolicy = ev.Register("policy", func(c PolicyCase) error {
 	dst := filepath.Join(r, "dst")
 	os.Mkdir(dst, 0755)
 	os.Mkdir(filepath.Join(r, "dst-evil"), 0755)
-	data, err := tarx.Build(append(append([]tarx.Entry{}, c.Before...), c.Bad), map[string]string{"R": r, "DST": dst})
+	data, err := tarx.Build(append(append(append([]tarx.Entry{}, c.Before...), c.Bad), c.After...), map[string]string{"R": r, "DST": dst})
 	if err != nil {
 		ev.Label("archive-not-buildable")
 		return nil
 	}
 	ev.NonTrivial(c, "policy-rejection")
+	ev.LabelIf(len(c.After) > 0, "several-offenders")
 	uerr, panicked := pk.Unpack(pk.Opts{}, nil, data, dst)
 	if panicked != nil {
 		return fmt.Errorf("Unpack panicked: %v", panicked)
@@ -334,7 +423,17 @@ func TestPropPolicy(t *testing.T) {
 		if strings.HasPrefix(bad.Type, "raw:") {
 			bad.Raw = true
 		}
-		return PolicyCase{Before: append(before, pre...), Bad: bad}
+		pc := PolicyCase{Before: append(before, pre...), Bad: bad}
+		// more entries of the kind that is only found out once everything is in place
+		for i := 0; i < rapid.IntRange(0, 2).Draw(t, "nafter"); i++ {
+			if len(pre) == 0 || pre[0].Name != "a" {
+				pc.Before = append(pc.Before, tarx.Entry{Name: "a", Type: "symlink", Mode: 0777, Link: ".", Sec: 1500000000})
+				pre = []tarx.Entry{{Name: "a"}}
+			}
+			pc.After = append(pc.After, tarx.Entry{Name: fmt.Sprintf("more%d", i), Type: "symlink", Mode: 0777, Sec: 1500000000,
+				Link: rapid.SampledFrom([]string{"a/..", "a/../x", "a/../..", "a/../dst-evil"}).Draw(t, "moretarget")})
+		}
+		return pc
 	})
 }
 
